@@ -273,159 +273,139 @@ Section Combinators.
     end.
 
   (* ================= DisjunctionHeapSearcher ================= *)
-  (* A SearcherCurr is (curr id, matchingIdx); the searcher itself is dh_kids[matchingIdx].
+  (* A SearcherCurr {searcher, curr, matchingIdx} is an entry (searcher state, curr id): the Go
+     code reaches a child only through the SearcherCurr that holds it (matchingCurr.searcher.Next,
+     searcherCurr.searcher.Advance), and a child whose Next/Advance returned nil is never pushed
+     back, i.e. it is dropped.  matchingIdx is used for scoring only and is not modelled.
      container/heap is abstracted: [dh_heap] is a list, heap.Push is cons, heap.Pop removes the
      first entry of least id (Less compares ids only, so which of several equal entries comes out
-     first is not determined by the Go code either). *)
-  Record dheap_st := { dh_kids : list C; dh_min : Z; dh_heap : list (Z * nat);
-                       dh_match : list (Z * nat); dh_init : bool }.
+     first is not determined by the Go code either).  [dh_searchers] is s.searchers, used by
+     initSearchers only. *)
+  Definition hentry := (C * Z)%type.
+  Record dheap_st := { dh_searchers : list C; dh_min : Z; dh_heap : list hentry;
+                       dh_match : list hentry; dh_init : bool }.
 
-  Fixpoint heap_least (h : list (Z * nat)) : option Z :=
+  Fixpoint heap_least (h : list hentry) : option Z :=
     match h with
     | [] => None
-    | (c, _) :: h' => match heap_least h' with Some m => Some (Z.min c m) | None => Some c end
+    | (_, c) :: h' => match heap_least h' with Some m => Some (Z.min c m) | None => Some c end
     end.
-  Fixpoint heap_remove (m : Z) (h : list (Z * nat)) : option ((Z * nat) * list (Z * nat)) :=
+  Fixpoint heap_remove (m : Z) (h : list hentry) : option (hentry * list hentry) :=
     match h with
     | [] => None
-    | (c, i) :: h' =>
-        if c =? m then Some ((c, i), h')
-        else match heap_remove m h' with Some (e, h'') => Some (e, (c, i) :: h'') | None => None end
+    | (k, c) :: h' =>
+        if c =? m then Some ((k, c), h')
+        else match heap_remove m h' with Some (e, h'') => Some (e, (k, c) :: h'') | None => None end
     end.
-  Definition heap_pop (h : list (Z * nat)) : option ((Z * nat) * list (Z * nat)) :=
+  Definition heap_pop (h : list hentry) : option (hentry * list hentry) :=
     match heap_least h with Some m => heap_remove m h | None => None end.
 
   (* for len(s.heap) > 0 && next.curr.ID == s.heap[0].curr.ID { pop, append } ; n bounds len(heap) *)
-  Fixpoint pop_equal (n : nat) (id : Z) (h m : list (Z * nat)) : list (Z * nat) * list (Z * nat) :=
+  Fixpoint pop_equal (n : nat) (id : Z) (h m : list hentry) : list hentry * list hentry :=
     match n with
     | O => (h, m)
     | S n' =>
         match heap_pop h with
-        | Some ((c, i), h') => if c =? id then pop_equal n' id h' (m ++ [(c, i)]) else (h, m)
+        | Some ((k, c), h') => if c =? id then pop_equal n' id h' (m ++ [(k, c)]) else (h, m)
         | None => (h, m)
         end
     end.
 
-  Definition heap_update_matches (h : list (Z * nat)) : list (Z * nat) * list (Z * nat) :=
+  (* updateMatches: (heap, matching) *)
+  Definition heap_update_matches (h : list hentry) : list hentry * list hentry :=
     match heap_pop h with
-    | Some ((c, i), h') => pop_equal (length h') c h' [(c, i)]
+    | Some ((k, c), h') => pop_equal (length h') c h' [(k, c)]
     | None => (h, [])
     end.
 
   (* initSearchers: Next on every child, push those with a match *)
-  Fixpoint dheap_init_kids (kids : list C) (i : nat) (h : list (Z * nat))
-    : option (list C * list (Z * nat)) :=
+  Fixpoint dheap_init_kids (kids : list C) (h : list hentry) : option (list hentry) :=
     match kids with
-    | [] => Some ([], h)
+    | [] => Some h
     | k :: rest =>
         match cnext k with
         | None => None
-        | Some (r, k') =>
-            let h' := match r with Some c => (c, i) :: h | None => h end in
-            match dheap_init_kids rest (S i) h' with
-            | Some (rest', h'') => Some (k' :: rest', h'')
-            | None => None
-            end
+        | Some (r, k') => dheap_init_kids rest (match r with Some c => (k', c) :: h | None => h end)
         end
     end.
 
-  (* for _, matchingCurr := range s.matchingCurrs { curr = searcher.Next; if curr != nil { push } } *)
-  Fixpoint dheap_next_matching (m : list (Z * nat)) (kids : list C) (h : list (Z * nat))
-    : option (list C * list (Z * nat)) :=
+  (* for _, matchingCurr := range s.matchingCurrs { curr = matchingCurr.searcher.Next(); if curr != nil { push } } *)
+  Fixpoint dheap_next_matching (m : list hentry) (h : list hentry) : option (list hentry) :=
     match m with
-    | [] => Some (kids, h)
-    | (_, i) :: rest =>
-        match nth_error kids i with
+    | [] => Some h
+    | (k, _) :: rest =>
+        match cnext k with
         | None => None
-        | Some k =>
-            match cnext k with
-            | None => None
-            | Some (r, k') =>
-                match upd_nth i (fun _ => Some k') kids with
-                | None => None
-                | Some kids' =>
-                    dheap_next_matching rest kids' (match r with Some c => (c, i) :: h | None => h end)
-                end
-            end
+        | Some (r, k') => dheap_next_matching rest (match r with Some c => (k', c) :: h | None => h end)
         end
     end.
 
-  Fixpoint dheap_loop (fuel : nat) (min : Z) (kids : list C) (h m : list (Z * nat))
-    : option (res * list C * list (Z * nat) * list (Z * nat)) :=
+  Fixpoint dheap_loop (fuel : nat) (min : Z) (h m : list hentry)
+    : option (res * list hentry * list hentry) :=
     match fuel with
     | O => None
     | S f =>
         match m with
-        | [] => Some (None, kids, h, [])
-        | (m0, _) :: _ =>
+        | [] => Some (None, h, [])
+        | (_, m0) :: _ =>
             let found := min <=? Z.of_nat (length m) in
-            match dheap_next_matching m kids h with
+            match dheap_next_matching m h with
             | None => None
-            | Some (kids', h1) =>
+            | Some h1 =>
                 let '(h2, m') := heap_update_matches h1 in
-                if found then Some (Some m0, kids', h2, m') else dheap_loop f min kids' h2 m'
+                if found then Some (Some m0, h2, m') else dheap_loop f min h2 m'
             end
         end
     end.
 
-  Definition dheap_initialise (st : dheap_st) : option (list C * list (Z * nat) * list (Z * nat)) :=
-    if dh_init st then Some (dh_kids st, dh_heap st, dh_match st)
-    else match dheap_init_kids (dh_kids st) 0 [] with
-         | Some (kids, h) => let '(h', m) := heap_update_matches h in Some (kids, h', m)
+  Definition dheap_initialise (st : dheap_st) : option (list hentry * list hentry) :=
+    if dh_init st then Some (dh_heap st, dh_match st)
+    else match dheap_init_kids (dh_searchers st) [] with
+         | Some h => Some (heap_update_matches h)
          | None => None
          end.
 
   Definition dheap_next (fuel : nat) (st : dheap_st) : step_res dheap_st :=
     match dheap_initialise st with
     | None => None
-    | Some (kids, h, m) =>
-        match dheap_loop fuel (dh_min st) kids h m with
-        | Some (r, kids', h', m') =>
-            Some (r, {| dh_kids := kids'; dh_min := dh_min st; dh_heap := h'; dh_match := m'; dh_init := true |})
+    | Some (h, m) =>
+        match dheap_loop fuel (dh_min st) h m with
+        | Some (r, h', m') =>
+            Some (r, {| dh_searchers := dh_searchers st; dh_min := dh_min st; dh_heap := h'; dh_match := m'; dh_init := true |})
         | None => None
         end
     end.
 
   (* for len(s.heap) > 0 && s.heap[0].curr.ID < ID { pop; curr = searcher.Advance(ID); if curr != nil { tmp = append(tmp, it) } } *)
-  Fixpoint dheap_adv_loop (fuel : nat) (t : Z) (kids : list C) (h tmp : list (Z * nat))
-    : option (list C * list (Z * nat) * list (Z * nat)) :=
+  Fixpoint dheap_adv_loop (fuel : nat) (t : Z) (h tmp : list hentry) : option (list hentry * list hentry) :=
     match fuel with
     | O => None
     | S f =>
         match heap_pop h with
-        | None => Some (kids, h, tmp)
-        | Some ((c, i), h') =>
+        | None => Some (h, tmp)
+        | Some ((k, c), h') =>
             if c <? t then
-              match nth_error kids i with
+              match cadv k t with
               | None => None
-              | Some k =>
-                  match cadv k t with
-                  | None => None
-                  | Some (r, k') =>
-                      match upd_nth i (fun _ => Some k') kids with
-                      | None => None
-                      | Some kids' =>
-                          dheap_adv_loop f t kids' h' (match r with Some c' => tmp ++ [(c', i)] | None => tmp end)
-                      end
-                  end
+              | Some (r, k') => dheap_adv_loop f t h' (match r with Some c' => tmp ++ [(k', c')] | None => tmp end)
               end
-            else Some (kids, h, tmp)
+            else Some (h, tmp)
         end
     end.
 
   Definition dheap_adv (fuel : nat) (st : dheap_st) (t : Z) : step_res dheap_st :=
     match dheap_initialise st with
     | None => None
-    | Some (kids, h, m) =>
+    | Some (h, m) =>
         (* toss matching back onto the heap *)
         let h0 := rev m ++ h in
-        match dheap_adv_loop fuel t kids h0 [] with
+        match dheap_adv_loop fuel t h0 [] with
         | None => None
-        | Some (kids1, h1, tmp) =>
+        | Some (h1, tmp) =>
             let '(h2, m2) := heap_update_matches (rev tmp ++ h1) in
-            match dheap_loop fuel (dh_min st) kids1 h2 m2 with
-            | Some (r, kids', h', m') =>
-                Some (r, {| dh_kids := kids'; dh_min := dh_min st; dh_heap := h'; dh_match := m'; dh_init := true |})
+            match dheap_loop fuel (dh_min st) h2 m2 with
+            | Some (r, h', m') =>
+                Some (r, {| dh_searchers := dh_searchers st; dh_min := dh_min st; dh_heap := h'; dh_match := m'; dh_init := true |})
             | None => None
             end
         end
@@ -695,7 +675,7 @@ End Combinators.
 
 Arguments cj_kids {C}. Arguments cj_max {C}. Arguments cj_init {C}.
 Arguments ds_kids {C}. Arguments ds_min {C}. Arguments ds_match {C}. Arguments ds_init {C}.
-Arguments dh_kids {C}. Arguments dh_min {C}. Arguments dh_heap {C}. Arguments dh_match {C}. Arguments dh_init {C}.
+Arguments dh_searchers {C}. Arguments dh_min {C}. Arguments dh_heap {C}. Arguments dh_match {C}. Arguments dh_init {C}.
 Arguments bl_guard {C}. Arguments bl_must {C}. Arguments bl_should {C}. Arguments bl_mustnot {C}.
 Arguments bl_cm {C}. Arguments bl_cs {C}. Arguments bl_cmn {C}. Arguments bl_cur {C}.
 Arguments bl_init {C}. Arguments bl_done {C}.
@@ -770,7 +750,7 @@ Fixpoint build (t : stree) : state :=
   | DisjS min ts =>
       SDisjS {| ds_kids := map (fun c => (build c, None)) ts; ds_min := min; ds_match := []; ds_init := false |}
   | DisjH min ts =>
-      SDisjH {| dh_kids := map build ts; dh_min := min; dh_heap := []; dh_match := []; dh_init := false |}
+      SDisjH {| dh_searchers := map build ts; dh_min := min; dh_heap := []; dh_match := []; dh_init := false |}
   | Bool g m s n =>
       SBool {| bl_guard := g;
                bl_must := match m with Some c => Some (build c) | None => None end;
